@@ -20,6 +20,7 @@ structure Conn where
   pool : Nat          -- the pool that dialled it
   opened : Bool       -- `IsOpened()`
   slave : Bool        -- the role it was dialled with (`Pool.isSlave` at dial time: decides the READONLY handshake)
+  gone : Bool := false  -- the peer went away and the proxy has not been told (no EOF event yet): the next write fails
   deriving Repr, DecidableEq
 
 structure Pool where
@@ -145,9 +146,36 @@ def request (s : St) (isRead : Bool) : St × Out :=
      | (s2, none, _) => (s2, .err))
   | (s1, none, false) => (s1, .err)
 
+/-- the peer of connection `c` goes away silently: the proxy still believes the connection open -/
+def vanish (s : St) (c : Nat) : St := { s with conns := s.conns.modify c (fun x => { x with gone := true }) }
+
+/-- the write signal of a request queued on `c` (`handleWriteSignal` -> `writev`): on a connection whose peer is
+    gone the write fails, `closeConn` fails everything queued on it and the connection is closed. `true` = written -/
+def deliver (s : St) (c : Nat) : St × Bool :=
+  match s.conns[c]? with
+  | some x =>
+    if x.gone then ({ s with conns := s.conns.modify c (fun y => { y with opened := false }) }, false) else (s, true)
+  | none => (s, true)
+
+inductive Served
+  | fwd (c : Nat)        -- written to connection `c`
+  | lost (c : Nat)       -- queued on `c`, the write failed: the client got `-ERR redis connection closed`, `c` is closed
+  | err                  -- the client got `-ERR unknown proxy pool conn`
+  deriving Repr, DecidableEq
+
+/-- a client request up to and including the write signal -/
+def serve (s : St) (isRead : Bool) : St × Served :=
+  match request s isRead with
+  | (s1, .fwd c) =>
+    (match deliver s1 c with
+     | (s2, true) => (s2, .fwd c)
+     | (s2, false) => (s2, .lost c))
+  | (s1, .err) => (s1, .err)
+
 inductive Op
   | get (p : Nat)
   | lose (c : Nat)
+  | vanish (c : Nat)
   | setDial (p : Nat) (ok : Bool)
   | release (p : Nat)
   | close (p : Nat)
@@ -158,11 +186,12 @@ inductive Op
 def step (s : St) : Op → St
   | .get p => (get s p).1
   | .lose c => lose s c
+  | .vanish c => vanish s c
   | .setDial p ok => setDial s p ok
   | .release p => release s p
   | .close p => close s p
   | .setSlave p b => setIsSlave s p b
-  | .req r => (request s r).1
+  | .req r => (serve s r).1
 
 def run (s : St) (ops : List Op) : St := ops.foldl step s
 
